@@ -62,6 +62,7 @@ func (r *rec) Fail(oracle, detail string, sig map[string]string) {
 }
 
 type resLine struct {
+	Abort bool        `json:"abort,omitempty"`
 	Begin *int        `json:"begin,omitempty"`
 	Done  *int        `json:"done,omitempty"`
 	Res   *caseResult `json:"res,omitempty"`
@@ -85,11 +86,20 @@ func childMain(chunkFile, resFile string) {
 		x, _ := json.Marshal(l)
 		f.Write(append(x, '\n'))
 	}
+	hung := 0
 	for i, c := range cases {
 		i := i
 		write(resLine{Begin: &i})
 		res := runCase(c.Script)
 		write(resLine{Done: &i, Res: res})
+		if res.Counts["ev:timeout"] > 0 {
+			hung++
+		}
+		if hung >= 8 { // every hang costs a full guard: enough evidence, stop
+			write(resLine{Abort: true})
+
+			return
+		}
 	}
 }
 
@@ -163,7 +173,7 @@ func runAll(r *hx.Run, cases []caseSpec) {
 		var errBuf strings.Builder
 		cmd.Stderr = &errBuf
 		runErr := cmd.Run()
-		begun, done := -1, -1
+		begun, done, aborted := -1, -1, false
 		if f, err := os.Open(resFile); err == nil {
 			sc := bufio.NewScanner(f)
 			sc.Buffer(make([]byte, 1<<20), 1<<28)
@@ -171,6 +181,9 @@ func runAll(r *hx.Run, cases []caseSpec) {
 				var l resLine
 				if json.Unmarshal(sc.Bytes(), &l) != nil {
 					break
+				}
+				if l.Abort {
+					aborted = true
 				}
 				if l.Begin != nil {
 					begun = *l.Begin
@@ -181,6 +194,12 @@ func runAll(r *hx.Run, cases []caseSpec) {
 				}
 			}
 			f.Close()
+		}
+		if aborted {
+			r.Count("aborted-after-8-hung-cases")
+			fmt.Fprintln(os.Stderr, "8 cases hung: remaining cases skipped")
+
+			break
 		}
 		if runErr == nil && done == end-pos-1 {
 			pos = end
